@@ -18,33 +18,48 @@ TEMPLATES = {
     'SnS': ['S', 'n', 'S'], 'EnE': ['E', 'n', 'E'],
     # end tag written with inner whitespace (`</ block >`), which the tag grammar accepts
     'W': ['W'], 'SW': ['S', 'W'], 'nW': ['n', 'W'],
+    # tags on the third line of a comment, after other text
+    'tntnS': ['t', 'n', 't', 'n', 'S'], 'SntnS': ['S', 'n', 't', 'n', 'S'], 'tntnE': ['t', 'n', 't', 'n', 'E'],
+    # a bare tag as the very last bytes of a comment, directly after another tag; multi-byte text before a tag
+    'XB$': ['X', 'B', '$'], 'B$': ['B', '$'], 'SX$': ['S', 'X', '$'], 'uS': ['u', 'S'], 'uE': ['u', 'E'],
 }
 
 
 class CommentSpec:
-    """Concrete text + events of one comment built from a template."""
+    """Concrete text (bytes) + events of one comment built from a template.  Offsets are byte offsets."""
 
     def __init__(self, tmpl, first_name_idx):
         self.tmpl = tmpl
-        text = '  '
+        text = b'  '
         self.events = []        # (kind, offset, length, name)
         k = first_name_idx
+        pad_end = True
         for it in TEMPLATES[tmpl]:
             if it == 'S':
-                tag = '<block name="b%d">' % k
+                tag = b'<block name="b%d">' % k
                 self.events.append(('S', len(text), len(tag), 'b%d' % k))
-                text += tag + ' '
+                text += tag + b' '
                 k += 1
-            elif it in ('E', 'W'):
-                tag = '</block>' if it == 'E' else '</ block >'
+            elif it == 'B':         # bare start tag, nothing after it
+                tag = b'<block>'
+                self.events.append(('S', len(text), len(tag), None))
+                text += tag
+            elif it in ('E', 'W', 'X'):
+                tag = {'E': b'</block>', 'W': b'</ block >', 'X': b'</block>'}[it]
                 self.events.append(('E', len(text), len(tag), None))
-                text += tag + ' '
+                text += tag + (b'' if it == 'X' else b' ')
             elif it == 'n':
-                text += '\n   '
+                text += b'\n   '
+            elif it == 'u':         # multi-byte text before a tag
+                text += '\u043a\u043b\u044e\u0447\u0438 \u65e5\u672c'.encode('utf-8')
+            elif it == '$':
+                pad_end = False
             else:
-                text += 'words '
-        text += '  '
-        self.text = text
+                text += b'words '
+        if pad_end:
+            text += b'  '
+        self.text_bytes = text
+        self.text = text.decode('utf-8')
         self.next_name_idx = k
 
 
@@ -62,13 +77,14 @@ def build_comments(I, prog, tmpls, tag='c'):
         sl = I.fresh_int('%s%d_sl' % (tag, i), 1, NUM_MAX)
         sc = I.fresh_int('%s%d_sc' % (tag, i), 1, NUM_MAX)
         so = I.fresh_int('%s%d_so' % (tag, i), 0, NUM_MAX)
-        nl = sp.text.count('\n')
+        tb = sp.text_bytes
+        nl = tb.count(b'\n')
         el = sl + nl
         if nl == 0:
-            ec = sc + len(sp.text)
+            ec = sc + len(tb)
         else:
-            ec = len(sp.text) - sp.text.rfind('\n')        # 1-based column after the last char
-        eo = so + len(sp.text)
+            ec = len(tb) - tb.rfind(b'\n')        # 1-based byte column after the last byte
+        eo = so + len(tb)
         if prev is not None:
             I.add(so >= prev['eo'])
             I.add(z3.Or(sl > prev['el'], z3.And(sl == prev['el'], sc >= prev['ec'])))
@@ -79,40 +95,15 @@ def build_comments(I, prog, tmpls, tag='c'):
             prog, 'Comment',
             position_range=Struct('Range', (position(prog, sl, sc), position(prog, el, ec))),
             source_range=Struct('Range', (so, eo)),
-            comment_text=new_string(I, sp.text.encode())))
+            comment_text=new_string(I, sp.text_bytes)))
     return comments, geo, specs
 
 
 def install_event_parser(I, prog, specs):
-    """WinnowBlockTagParser::next stub driven by the specs' event lists (matched by text)."""
-    by_text = {sp.text: sp for sp in specs}
-
-    def nxt(I2, a, ci, dt):
-        r = a[0]
-        tp = I2.load(r)
-        src_i = field_index(prog, 'WinnowBlockTagParser', 'source')
-        cur_i = field_index(prog, 'WinnowBlockTagParser', 'cursor')
-        text = bytes(as_sstr(I2, tp.f[src_i]).b).decode('latin1')
-        cursor = I2.concretize(tp.f[cur_i])
-        sp = by_text.get(text)
-        if sp is None:
-            raise EngineError('tag parser stub: unknown comment text %r' % text)
-        for (kind, off, ln, name) in sp.events:
-            if off >= cursor:
-                I2.store(Ref(r.cell, r.path + (cur_i,)), off + ln)
-                if kind == 'S':
-                    vi = prog.variant_index('BlockTag', 'Start')
-                    fields = prog.src.enums['BlockTag'][vi][2]
-                    vals = {'tag_range': Struct('Range', (off, off + ln)),
-                            'attributes': MapVal([Tuple(new_string(I2, b'name'), new_string(I2, name.encode()))], 'HashMap')}
-                    return Ok(Some(Enum('BlockTag', vi, 'Start', [vals[f] for f in fields])))
-                vi = prog.variant_index('BlockTag', 'End')
-                return Ok(Some(Enum('BlockTag', vi, 'End', [off])))
-        I2.store(Ref(r.cell, r.path + (cur_i,)), len(text))
-        return Ok(NONE)
-
-    I.stubs['<WinnowBlockTagParser as BlockTagParser>::next'] = nxt
-    I.stubs['BlockTagParser::next'] = nxt
+    """The crate's own tag scanner runs on the (concrete) comment text; only the winnow grammar
+    entry points are replaced (see layout.install_tag_parser_stub)."""
+    from .layout import install_tag_parser_stub
+    install_tag_parser_stub(I, prog)
 
 
 def reference_pairing(specs, geo):
@@ -135,13 +126,13 @@ def reference_pairing(specs, geo):
     for b in blocks:
         g = geo[b['start_comment']]
         ge = geo[b['end_comment']]
-        text = specs[b['start_comment']].text
+        text = specs[b['start_comment']].text_bytes
 
         def pos_at(off):
-            nl = text.count('\n', 0, off)
+            nl = text.count(b'\n', 0, off)
             if nl == 0:
                 return (g['sl'], g['sc'] + off)
-            return (g['sl'] + nl, off - text.rfind('\n', 0, off))
+            return (g['sl'] + nl, off - text.rfind(b'\n', 0, off))
         lt = pos_at(b['start_off'])
         gt = pos_at(b['start_off'] + b['start_len'] - 1)
         same = b['start_comment'] == b['end_comment']
